@@ -455,8 +455,9 @@ def replay_witness(ctx, path):
 
 def run(ctx):
     ctx.fingerprint(FILES)
-    ctx.translate(["Greedy"])
+    ctx.translate(["Greedy", "Task", "TaskGraph"])
     ctx.build(ctx.pid, deps=["Model/Greedy.v"])
+    ctx.build("C13_remaining")       # the remaining time LSF's slack subtracts, translated from Task.remaining_time
     ensure_model(ctx)
     quick = ctx.tier == "quick"
     n = 1300 if quick else 12000
